@@ -142,6 +142,12 @@ def main(argv=None):
     shutil.rmtree(os.path.join(VERIF, rrel("replays", prop)) if not RROOT else rrel("replays", prop), ignore_errors=True)
     os.makedirs(os.path.join(VERIF, rrel("replays", prop)) if not RROOT else rrel("replays", prop), exist_ok=True)
     unit_by_name = {r["unit"]: r for r in results}
+    # a unit the engine can no longer analyse (unsupported construct after a change): no verdict from the proof, but the seeded
+    # concrete search of its replay harness still runs against the real code — a failing input is a VIOLATION, silence is UNDECIDED
+    for r in results:
+        if r.get("error") and not r["error"].startswith("engine-fault") and r.get("qualname"):
+            obligations.append({"name": f"{r['unit']}:analysable", "status": "UNDECIDED", "ms": 0, "backends": ["engine"], "queries": 0,
+                                "unit": r["unit"], "note": r["error"][:200], "failed": [{"reason": r["error"][:200]}]})
     failing = [o for o in obligations if o["status"] != "PROVED"]
     failing.sort(key=lambda o: 0 if o["status"] == "REFUTED" else 1)
     import re as _re
